@@ -17,7 +17,9 @@ def nfc(s):
 
 # logical stems; each gets several spellings with the same normal form
 _STEMS = ['a', 'b', 'cell.len', 'x_1', '\u00e9', '\u00e5str\u00f6m', 'stra\u00dfe', '\u01c6', '\u03c3\u03b1\u03c2',
-          'd\u0323\u0307', 'q\u0323\u0307x', 'temp', 'u']
+          'd\u0323\u0307', 'q\u0323\u0307x', 'temp', 'u',
+          # case folding that grows by two and three units (the fold buffer is sized for one)
+          'ma\u00dfstra\u00dfe', 'e\ufb03cient']
 
 
 def spellings(stem):
@@ -27,6 +29,10 @@ def spellings(stem):
     if '\u00df' in stem:
         out.add(stem.replace('\u00df', 'SS'))
         out.add(stem.replace('\u00df', '\u1e9e'))
+    if '\ufb03' in stem:
+        out.add(stem.replace('\ufb03', 'ffi'))
+        out.add(stem.replace('\ufb03', 'FFI').upper())
+        out.add(stem.replace('\ufb03', 'f\ufb01'))
     if '\u01c6' in stem:
         out.update([stem.replace('\u01c6', '\u01c5'), stem.replace('\u01c6', '\u01c4')])
     if '\u03c3' in stem:
